@@ -422,6 +422,36 @@ def run_case(ctx, i, rng):
                                     a, b, detail)
                         break
         exp = expected_seen(opn, argsX, kw, X.default_namespace)
+        if opn.startswith('Iter') and seenA and rx[0] != 'exc':
+            # an Iter... call reaches the server first as its Open... or as
+            # its traditional operation; that first request must carry what
+            # the caller supplied (restricted to what that operation takes)
+            wire_op = seenA[0][1]
+            try:
+                wsig = inspect.signature(getattr(pywbem.WBEMConnection,
+                                                 wire_op))
+                kw2 = {k: v for k, v in kw.items() if k in wsig.parameters}
+                if wire_op.startswith('Open') and \
+                        'MaxObjectCount' not in kw2:
+                    from pywbem.config import DEFAULT_ITER_MAXOBJECTCOUNT
+                    kw2['MaxObjectCount'] = DEFAULT_ITER_MAXOBJECTCOUNT
+                iexp = expected_seen(wire_op, argsX, kw2,
+                                     X.default_namespace)
+            except (AttributeError, TypeError, ValueError):
+                iexp = None
+            if iexp is not None:
+                ctx.count('server-seen-vs-caller-compared')
+                ctx.count('iter-first-request-compared')
+                try:
+                    fe = seen_fp(iexp)
+                except Exception:  # pylint: disable=broad-except
+                    fe = None
+                if fe is not None and fe != fa[0]:
+                    report_diff(ctx, 'server-seen-vs-caller.%s' % opn,
+                                '%s: its first request %s shows the server '
+                                '(first) something else than what the caller '
+                                'supplied (second)' % (desc, wire_op),
+                                fa[0], fe, detail)
         if exp is not None and len(seenA) == 1 and rx[0] != 'exc':
             ctx.count('server-seen-vs-caller-compared')
             try:
